@@ -108,6 +108,8 @@ macro_rules! c17_thick_g {
 // regime G: all octants, horizontal, vertical, diagonal, zero length x widths
 c17_thick_g!(c01_c02_c17_q_g_thick_a, 60, [((0, 0), (5, 2), 3), ((-3, 4), (2, -4), 2), ((2, 2), (2, 2), 3), ((-4, 0), (4, 0), 4), ((0, -3), (0, 3), 1)]);
 c17_thick_g!(c01_c02_c17_q_g_thick_b, 60, [((3, 3), (-3, -3), 3), ((4, -1), (-2, -5), 2), ((-1, -1), (1, 6), 5), ((0, 0), (6, 1), 0)]);
+// even major delta with exact Bresenham ties (slopes 1/2, 3/4, 1/2 steep) and widths >= 3
+c17_thick_g!(c01_c02_c17_q_g_thick_ties, 60, [((-6, -6), (-4, -5), 4), ((0, 0), (4, 3), 3), ((1, -2), (3, 2), 5), ((0, 0), (4, -2), 3)]);
 #[cfg(feature = "thorough")]
 c17_thick_g!(c01_c02_c17_t_g_thick_c, 120, [((0, 0), (9, 4), 4), ((-5, 6), (3, -7), 3), ((-6, -2), (6, 2), 6), ((1, -7), (-2, 8), 5), ((0, 0), (7, 7), 2), ((7, 0), (0, 7), 3)]);
 
